@@ -79,7 +79,7 @@ macro_rules! zeroize_h {
 const TZ: Two = Two { a: 0, b: 0 };
 
 // element types that are themselves arrays
-// @gen macro=zeroize_nested name=c19_zeroize_nested props=C19 quick=U3,3;U5,5 thorough=U0,0;U6,6;U9,9
+// @gen macro=zeroize_nested name=c19_zeroize_nested props=C19 quick=U3,3;U5,5 thorough=U1,1;U6,6;U9,9
 macro_rules! zeroize_nested {
     ($name:ident, $N:ty, $n:expr) => {
         #[kani::proof]
@@ -102,8 +102,8 @@ macro_rules! zeroize_nested {
     };
 }
 
-// large lengths (the storage recursion is ten levels deep at 1024)
-// @gen macro=zeroize_big name=c19_zeroize_big props=C19 quick=U256,256;U257,257 thorough=U255,255;U1023,1023;U1024,1024
+// large lengths (the storage recursion is nine levels deep at 512; 1023 alone takes CBMC 700 s and 1024 exceeds any sensible budget - all N are engine V, unit layout)
+// @gen macro=zeroize_big name=c19_zeroize_big props=C19 quick=U256,256;U257,257 thorough=U255,255;U511,511;U512,512
 macro_rules! zeroize_big {
     ($name:ident, $N:ty, $n:expr) => {
         #[kani::proof]
